@@ -254,7 +254,10 @@ async def check_threads(ctx, case):
             return await validate_deep_anwendungshandbuch(TB.build(sub["spec"]), soll_is_required=sub["soll"])
 
         try:
-            start.wait(timeout=60)
+            try:
+                start.wait(timeout=60)
+            except threading.BrokenBarrierError:
+                pass  # a very loaded machine: the threads simply overlap less
             for rep in range(reps):
                 got = TB.summarise(asyncio.run(go()))
                 if got != baselines[n]:
@@ -271,9 +274,14 @@ async def check_threads(ctx, case):
         for t in threads:
             t.start()
         for t in threads:
-            t.join(timeout=600)
+            t.join(timeout=900)
     finally:
         sys.setswitchinterval(interval)
+    if any(t.is_alive() for t in threads):
+        # wall clock is never a verdict
+        from vf.core import Inconclusive
+
+        raise Inconclusive("the thread phase did not finish within its watchdog")
     ctx.evaluation(len(subs) * reps)
     ctx.count("validations_in_concurrent_threads", len(subs) * reps)
     if problems:
